@@ -96,14 +96,20 @@ def rootforms_part(tier, seed):
             srv = ctx.srv(flavour, slot=5)   # own server: it changes its working directory
             for side in (("s",) if flavour == "sync" else ("a", "s")):
                 suf = "_sync" if side == "s" else ""
-                for form in ("symlink", "relative", "dot", "symlink-trailing-slash"):
+                for form in ("symlink", "relative", "dot", "symlink-trailing-slash", "index-relocated", "content-relocated"):
                     for removal in ("clear", "remove_fully", "remove", "remove_hash"):
                         parent = ctx.fresh("c09root-")
                         real = os.path.join(parent, "real-cache")
                         os.makedirs(real)
                         os.symlink("real-cache", os.path.join(parent, "link"))
                         arg, cwd = {"symlink": (os.path.join(parent, "link"), parent), "relative": ("real-cache", parent), "dot": (".", real),
-                                    "symlink-trailing-slash": (os.path.join(parent, "link") + "/", parent)}[form]
+                                    "symlink-trailing-slash": (os.path.join(parent, "link") + "/", parent),
+                                    "index-relocated": (real, parent), "content-relocated": (real, parent)}[form]
+                        if form in ("index-relocated", "content-relocated"):
+                            # one of the cache's own sub-directories lives elsewhere (a symbolic link inside the cache directory)
+                            sub = ref.INDEX_DIR if form == "index-relocated" else ref.CONTENT_DIR
+                            os.makedirs(os.path.join(parent, "elsewhere", sub))
+                            os.symlink(os.path.join(parent, "elsewhere", sub), os.path.join(real, sub))
                         srv.call({"op": "chdir", "dir": cwd})
                         case = {"flavour": flavour, "side": side, "cache_named_as": form, "removal": removal}
                         replay = {"engine": "seqx", "mode": "cache root forms", "case": case}
@@ -142,7 +148,7 @@ def rootforms_part(tier, seed):
                             rd = srv.call({"op": "read_sync", "cache": real, "key": k})
                             if not ("ok" in rd and wr.data_matches(rd["ok"], d2)):
                                 V.violation(res, sig + ":bystander-lost", "after %s the other key reads %r" % (removal, rd), replay)
-                        if removal in ("clear", "remove_fully", "remove_hash") and os.path.exists(os.path.join(real, ref.content_rel(s1))):
+                        if removal in ("clear", "remove_fully", "remove_hash") and os.path.lexists(os.path.join(real, ref.content_rel(s1))) and os.path.exists(os.path.join(real, ref.content_rel(s1))):
                             V.violation(res, sig + ":content-still-there", "after %s the content file is still in the real cache directory" % removal, replay)
                         if removal == "clear":
                             left = [x for x in os.listdir(real)] if os.path.isdir(real) else None
@@ -159,7 +165,7 @@ def rootforms_part(tier, seed):
                         fsutil.wipe(parent)
     finally:
         ctx.close()
-    res["extra"] = {"cache_root_forms": ["symlink", "relative", "dot", "symlink-trailing-slash"]}
+    res["extra"] = {"cache_root_forms": ["symlink", "relative", "dot", "symlink-trailing-slash", "index-relocated", "content-relocated"]}
     res["samples"] = [{"part": "cache root forms", "cases": res["evals"]}]
     return res
 
